@@ -845,6 +845,11 @@ class Emitter:
         if name in self.redirect:
             name = self.redirect[name]
         if name not in self.gname:
+            f = self.m.funcs.get(name)
+            if f is not None and f.blocks is None and is_env_name(name) and ('ext_' + name) in self.m.funcs:
+                # address of a declared-only libc-level external (e.g. toupper passed to std::transform): its model
+                self.gname[name] = 'ext_' + cid(name)
+                return self.gname[name]
             c = cid(name)
             if not (c[0].isalpha() or c[0] == '_'):
                 c = 'g_' + c
